@@ -187,7 +187,7 @@ pub fn run(run: &Run) {
     }
 
     // ---- random: long lists around each other and around the extremes
-    let n = run.opts.size(8_000, 600_000);
+    let n = run.opts.size(80_000, 6_000_000);
     run.parallel("int-random", n, |i, l| {
         let mut r = Rng::derive(seed, "c09-ir", i);
         let nitems = r.below(41);
@@ -238,7 +238,7 @@ pub fn run(run: &Run) {
         }
     });
 
-    let n = run.opts.size(6_000, 400_000);
+    let n = run.opts.size(60_000, 4_000_000);
     run.parallel("ip-random", n, |i, l| {
         let mut r = Rng::derive(seed, "c09-pr", i);
         let nitems = r.below(25);
@@ -329,7 +329,7 @@ pub fn run(run: &Run) {
         }
     });
 
-    let n = run.opts.size(4_000, 200_000);
+    let n = run.opts.size(40_000, 2_000_000);
     run.parallel("bytes-random", n, |i, l| {
         let mut r = Rng::derive(seed, "c09-br", i);
         let nitems = r.below(12);
